@@ -10,6 +10,7 @@
 EXTENDS PubSub, Json, IOUtils
 
 G == JsonDeserialize(IOEnv.GRAPH_FILE)
+WithGhosts == IOEnv.WITH_GHOSTS = "1"     \* trace forests: ghosts evolve along the recorded histories
 
 VARIABLE node
 gvars == <<st, gh, node>>
@@ -59,7 +60,7 @@ GNext == \E i \in ToSet(G.out[node]) :
             LET e == G.edges[i]
             IN  /\ node' = e.dst
                 /\ st' = NodeSt(e.dst)
-                /\ gh' = gh
+                /\ gh' = IF WithGhosts THEN GhostNext(st, gh, e.a) ELSE gh
 
 GSpec == GInit /\ [][GNext]_gvars
 =============================================================================
